@@ -151,4 +151,6 @@ def rule_class_resolution(ctx):
                      "class look-ups use %r" % (lookups,))
 
 
-RULES = [rule_hook_protocol, rule_row_protocol, rule_run_protocol, rule_class_resolution]
+from .common import rule_module_state  # noqa: E402
+
+RULES = [rule_hook_protocol, rule_row_protocol, rule_run_protocol, rule_class_resolution, rule_module_state]
